@@ -19,9 +19,11 @@ import (
 	"sync"
 	"time"
 
+	"github.com/openGemini/openGemini/engine/index/tsi"
 	"github.com/openGemini/openGemini/lib/config"
 	"github.com/openGemini/openGemini/lib/metaclient"
 	"github.com/openGemini/openGemini/lib/resourceallocator"
+	"github.com/openGemini/openGemini/lib/util/lifted/influx/influxql"
 	"github.com/openGemini/openGemini/lib/util/lifted/influx/meta"
 	"github.com/openGemini/openGemini/lib/util/lifted/vm/protoparser/influx"
 )
@@ -31,15 +33,24 @@ type VerifEngineShard struct {
 	DB, RP  string
 	ShardID uint64
 	IndexID uint64
+	// Slot 0: the shard covers all times. Slot k > 0: the shard (and its index) covers the k-th
+	// window of VerifSlotWidth nanoseconds after VerifSlotBase, so that one policy can have
+	// several shards with an index each.
+	Slot int
 }
+
+// VerifSlotBase / VerifSlotWidth place the time windows of VerifEngineShard.Slot.
+var VerifSlotBase = time.Date(2023, 1, 1, 0, 0, 0, 0, time.UTC).UnixNano()
+var VerifSlotWidth = int64(3 * time.Second)
 
 const verifEnginePt = uint32(1)
 
 // VerifDropEngine is an engine opened by the harness.
 type VerifDropEngine struct {
-	eng    *EngineImpl
-	Dir    string
-	client *metaclient.Client
+	eng     *EngineImpl
+	Dir     string
+	client  *metaclient.Client
+	stopped map[*tsi.MergeSetIndex]bool
 }
 
 var verifLoadCtxOnce sync.Once
@@ -58,6 +69,10 @@ func verifGetLoadCtx() *metaclient.LoadCtx {
 
 func verifShardTimes(s VerifEngineShard) *meta.ShardTimeRangeInfo {
 	tr := meta.TimeRangeInfo{StartTime: time.Unix(0, 0).UTC(), EndTime: time.Date(2099, 1, 1, 0, 0, 0, 0, time.UTC)}
+	if s.Slot > 0 {
+		tr.StartTime = time.Unix(0, VerifSlotBase+int64(s.Slot-1)*VerifSlotWidth).UTC()
+		tr.EndTime = time.Unix(0, VerifSlotBase+int64(s.Slot)*VerifSlotWidth).UTC()
+	}
 	return &meta.ShardTimeRangeInfo{
 		TimeRange:  tr,
 		OwnerIndex: meta.IndexDescriptor{IndexID: s.IndexID, IndexGroupID: s.IndexID, TimeRange: tr},
@@ -260,4 +275,170 @@ func (v *VerifDropEngine) Close() (err error) {
 		}
 	}()
 	return v.eng.Close()
+}
+
+// ---- DROP SERIES and its purge on the engine ---------------------------------------------------
+
+// DropSeries is the store's handling of a DROP SERIES request (DropSeries.Process of
+// app/ts-store/transport/handler followed by storeTsids) over every shard of the database: the
+// condition is searched on each shard's index, the tsids go to the deleted-tsid index of the
+// shard's policy (created on first use). It returns the number of tsids selected per shard id.
+func (v *VerifDropEngine) DropSeries(db, mst, cond string) (n map[uint64]int, err error) {
+	defer func() {
+		if r := recover(); r != nil {
+			err = fmt.Errorf("panic in drop series: %v\n%s", r, debug.Stack())
+		}
+	}()
+	n = map[uint64]int{}
+	var expr influxql.Expr
+	var tr influxql.TimeRange
+	if cond != "" {
+		if expr, tr, err = verifParseTagCondition(cond); err != nil {
+			return nil, err
+		}
+	}
+	if tr.Min.IsZero() {
+		tr.Min = time.Unix(0, influxql.MinTime).UTC()
+	}
+	if tr.Max.IsZero() {
+		tr.Max = time.Unix(0, influxql.MaxTime).UTC()
+	}
+	t := tsi.TimeRange{Min: tr.MinTimeNano(), Max: tr.MaxTimeNano()}
+	for _, dbptInfo := range v.eng.GetDatabase(db) {
+		for id, shard := range dbptInfo.Shards() {
+			if err = v.eng.OpenShardLazy(shard); err != nil {
+				return n, err
+			}
+			ids, e := shard.GetIndexBuilder().GetPrimaryIndex().SearchSeriesByTableAndCond([]byte(mst), expr, t)
+			if e != nil {
+				return n, e
+			}
+			n[id] = len(ids)
+			if len(ids) == 0 {
+				continue
+			}
+			// storeTsids
+			rp := shard.GetRPName()
+			if dbptInfo.GetDelIndexBuilderByRp(rp) == nil {
+				tri := &meta.ShardTimeRangeInfo{
+					ShardDuration: &meta.ShardDurationInfo{DurationInfo: meta.DurationDescriptor{Duration: time.Second}},
+					OwnerIndex:    meta.IndexDescriptor{IndexID: DelIndexBuilderId},
+				}
+				if _, _, _, _, e := dbptInfo.NewMergeSetIndex(rp, tri, v.client, shard.GetEngineType()); e == nil {
+					if e = SetDelMergeSetForEachMergeSet(dbptInfo, rp); e != nil {
+						return n, e
+					}
+				}
+			}
+			idx, ok := dbptInfo.GetDelIndexBuilderByRp(rp).GetPrimaryIndex().(*tsi.MergeSetIndex)
+			if !ok {
+				return n, fmt.Errorf("delIndex must be *tsi.MergeSetIndex")
+			}
+			if err = idx.Open(); err != nil {
+				return n, err
+			}
+			if err = idx.WriteDeleteTsids(ids); err != nil {
+				return n, err
+			}
+		}
+	}
+	return n, nil
+}
+
+// PurgeDeleted is the periodic drop-series task of the store (EngineImpl.DropSeries).
+func (v *VerifDropEngine) PurgeDeleted() (err error) {
+	defer func() {
+		if r := recover(); r != nil {
+			err = fmt.Errorf("panic in purge: %v\n%s", r, debug.Stack())
+		}
+	}()
+	return v.eng.DropSeries()
+}
+
+func (v *VerifDropEngine) indexOf(s VerifEngineShard) (*tsi.MergeSetIndex, *tsi.MergeSetIndex) {
+	sh := v.Shard(s)
+	if sh == nil {
+		return nil, nil
+	}
+	prim, _ := sh.sh.indexBuilder.GetPrimaryIndex().(*tsi.MergeSetIndex)
+	if prim == nil {
+		return nil, nil
+	}
+	return prim, prim.DeleteMergeSet()
+}
+
+// StopIndexBackground stops the flushers and mergers of the shard's index and of the
+// deleted-tsid index attached to it (if any).
+func (v *VerifDropEngine) StopIndexBackground(s VerifEngineShard) {
+	prim, del := v.indexOf(s)
+	for _, idx := range []*tsi.MergeSetIndex{prim, del} {
+		// Table.StopMergeAndFlusher hands one token to each background goroutine: once per table
+		if idx != nil && !v.stopped[idx] {
+			if v.stopped == nil {
+				v.stopped = map[*tsi.MergeSetIndex]bool{}
+			}
+			v.stopped[idx] = true
+			idx.VerifStopBackground()
+		}
+	}
+}
+
+// FlushIndexes flushes the raw items of the shard's index and of its deleted-tsid index.
+func (v *VerifDropEngine) FlushIndexes(s VerifEngineShard) {
+	prim, del := v.indexOf(s)
+	if prim != nil {
+		prim.DebugFlush()
+	}
+	if del != nil {
+		del.DebugFlush()
+	}
+}
+
+// IndexParts lists the parts of the shard's index table.
+func (v *VerifDropEngine) IndexParts(s VerifEngineShard) ([]tsi.VerifIndexPart, error) {
+	prim, _ := v.indexOf(s)
+	if prim == nil {
+		return nil, fmt.Errorf("shard %d is not loaded", s.ShardID)
+	}
+	return prim.VerifIndexParts()
+}
+
+// DeletedParts lists the parts of the deleted-tsid table attached to the shard's index.
+func (v *VerifDropEngine) DeletedParts(s VerifEngineShard) ([]tsi.VerifIndexPart, error) {
+	_, del := v.indexOf(s)
+	if del == nil {
+		return nil, nil
+	}
+	return del.VerifIndexParts()
+}
+
+// BeginIndexMerge marks parts of the shard's index table as taken by a merger; finish merges them.
+func (v *VerifDropEngine) BeginIndexMerge(s VerifEngineShard, positions []int) (int, func() error) {
+	prim, _ := v.indexOf(s)
+	if prim == nil {
+		return 0, func() error { return nil }
+	}
+	return prim.VerifBeginMerge(positions)
+}
+
+// SeriesKeys is SHOW SERIES for one measurement on the shard's index, keys sorted.
+func (v *VerifDropEngine) SeriesKeys(s VerifEngineShard, mst string) (keys []string, err error) {
+	defer func() {
+		if r := recover(); r != nil {
+			err = fmt.Errorf("panic in series keys: %v\n%s", r, debug.Stack())
+		}
+	}()
+	prim, _ := v.indexOf(s)
+	if prim == nil {
+		return nil, fmt.Errorf("shard %d is not loaded", s.ShardID)
+	}
+	series, err := prim.SearchSeriesKeys(make([][]byte, 1)[:0], []byte(mst), nil)
+	if err != nil {
+		return nil, err
+	}
+	for _, k := range series {
+		keys = append(keys, string(k))
+	}
+	sort.Strings(keys)
+	return keys, nil
 }
